@@ -7,6 +7,8 @@ import Just.Lemmas.EvalOnce
 import Just.Lemmas.Path
 import Just.Lemmas.Percent
 import Just.Lemmas.PathText
+import Just.Lemmas.PathAbs
+import Just.Lemmas.Case
 namespace Just.Props.C04
 open Just Just.Eval
 
@@ -675,5 +677,116 @@ theorem encode_uri_component_roundtrip (bs : List Nat) (h : ∀ b ∈ bs, b < 25
 open Just.Percent in
 /-- non-vacuity: `a b/é` (bytes 97 32 98 47 195 169) becomes `a%20b%2F%C3%A9` -/
 example : encode [97, 32, 98, 47, 195, 169] = "a%20b%2F%C3%A9".toList.map Char.toNat := by decide
+
+/-! ### `absolute_path()`: the working directory joined with the argument, cleaned -/
+section AbsolutePath
+open Just.Path
+
+/-- **`absolute_path` gives an absolute path**: whatever the argument, in an absolute working
+directory the result starts with `/` -/
+theorem absolute_path_is_absolute (wd p t : List Char) (hwd : wd = '/' :: t) :
+    ∃ t', absolutePath wd p = '/' :: t' := by
+  obtain ⟨u, hu⟩ := pushStr_absolute wd p t hwd
+  unfold absolutePath
+  rw [hu]
+  exact lexiclean_absolute u
+
+/-- **an absolute argument ignores the working directory**: it is only cleaned -/
+theorem absolute_path_of_absolute (wd t : List Char) : absolutePath wd ('/' :: t) = lexiclean ('/' :: t) := by
+  simp [absolutePath, pushStr]
+
+/-- **`absolute_path` is idempotent**: applying it to its own result changes nothing (the result is
+absolute, so the working directory is not joined again, and it is clean, so nothing is removed) -/
+theorem absolute_path_idempotent (wd p t : List Char) (hwd : wd = '/' :: t) :
+    absolutePath wd (absolutePath wd p) = absolutePath wd p := by
+  obtain ⟨u, hu⟩ := absolute_path_is_absolute wd p t hwd
+  rw [hu, absolute_path_of_absolute, ← hu]
+  unfold absolutePath
+  exact lexiclean_idempotent _
+
+/-- non-vacuity: in `/w/d`, `absolute_path("a/../b/./c")` is `/w/d/b/c` and `absolute_path("../x")` is `/w/x` -/
+example : absolutePath "/w/d".toList "a/../b/./c".toList = "/w/d/b/c".toList ∧
+    absolutePath "/w/d".toList "../x".toList = "/w/x".toList := by decide
+
+end AbsolutePath
+
+/-! ### the case conversions (model `Just.Case` of `heck::transform`, ASCII text as code points) -/
+section CaseConversion
+open Just.Case
+
+/-- **the words** every conversion writes are non-empty runs of letters and digits, and written one
+after the other they are exactly the letters and digits of the text, in order: no character is
+lost, invented or moved, and no separator of the input survives -/
+theorem case_words (s : List Nat) :
+    (∀ w ∈ words s, w ≠ [] ∧ ∀ c ∈ w, isAlnum c = true) ∧ (words s).flatten = s.filter isAlnum :=
+  ⟨words_alnum s, words_flatten s⟩
+
+/-- **`kebabcase` writes kebab-case**: only lower-case letters, digits and `-` -/
+theorem kebabcase_alphabet (s : List Nat) : ∀ c ∈ kebab s, isLower c = true ∨ isDigit c = true ∨ c = 45 := by
+  intro c hc
+  rcases mem_joinWith [45] _ c hc with h | ⟨w, hw, hcw⟩
+  · right; right; simpa using h
+  · have := (lowered_words s w hw).2 c hcw
+    rcases (alnum_iff c).mp this.1 with h | h | h
+    · exact Or.inl h
+    · rw [this.2] at h; cases h
+    · exact Or.inr (Or.inl h)
+
+/-- **`kebabcase` keeps the letters and digits**: without its separators the result is the
+lower-cased letters and digits of the text, in order -/
+theorem kebabcase_keeps_letters_and_digits (s : List Nat) :
+    (kebab s).filter isAlnum = (s.filter isAlnum).map toLower := by
+  unfold kebab
+  rw [filter_joinWith [45] (by decide) _ (fun w hw c hc => ((lowered_words s w hw).2 c hc).1)]
+  rw [← words_flatten s]
+  have hl : lowerWord = List.map toLower := by funext w; rfl
+  simp [hl, List.map_flatten]
+
+/-- **`kebabcase` and `snakecase` are idempotent**: the result is a fixed point — a text in the style
+is cut back into its own words -/
+theorem kebabcase_idempotent (s : List Nat) : kebab (kebab s) = kebab s :=
+  lower_style_idempotent 45 (by decide) s
+
+theorem snakecase_idempotent (s : List Nat) : snake (snake s) = snake s :=
+  lower_style_idempotent 95 (by decide) s
+
+/-- **the shouty styles are the upper-cased lower styles**: `shoutysnakecase(s)` is `snakecase(s)` with
+every letter in upper case, and likewise for kebab -/
+theorem shouty_is_uppercase_of_lower_style (sep : Nat) (hsep : toUpper sep = sep) (ws : List (List Nat)) :
+    (joinWith [sep] (ws.map lowerWord)).map toUpper = joinWith [sep] (ws.map upperWord) := by
+  have hc : ∀ c, toUpper (toLower c) = toUpper c := by
+    intro c
+    unfold toUpper toLower
+    by_cases hu : isUpper c = true
+    · have := (upper_iff c).mp hu
+      have hl : isLower (c + 32) = true := by rw [lower_iff]; omega
+      have hl2 : isLower c = false := by
+        cases h : isLower c with
+        | false => rfl
+        | true => have := (lower_iff c).mp h; omega
+      simp [hu, hl, hl2]
+    · simp [hu]
+  have hw : ∀ w : List Nat, (lowerWord w).map toUpper = upperWord w := by
+    intro w; simp [lowerWord, upperWord, hc]
+  induction ws with
+  | nil => simp [joinWith]
+  | cons w ws ih =>
+    cases ws with
+    | nil => simp [joinWith, hw]
+    | cons w2 ws => 
+      simp only [List.map_cons, joinWith, List.map_append, hw, hsep, List.map_nil] at ih ⊢
+      rw [ih]
+
+theorem shoutysnakecase_is_uppercase_of_snakecase (s : List Nat) : shoutySnake s = (snake s).map toUpper :=
+  (shouty_is_uppercase_of_lower_style 95 (by decide) (words s)).symm
+
+theorem shoutykebabcase_is_uppercase_of_kebabcase (s : List Nat) : shoutyKebab s = (kebab s).map toUpper :=
+  (shouty_is_uppercase_of_lower_style 45 (by decide) (words s)).symm
+
+/-- non-vacuity and the boundaries the styles are known for: `fooBarBAZQux x2Y, HTTPServer` -/
+example : kebab ("fooBarBAZQux x2Y, HTTPServer".toList.map Char.toNat)
+    = "foo-bar-baz-qux-x2-y-http-server".toList.map Char.toNat := by decide
+
+end CaseConversion
 
 end Just.Props.C04
